@@ -17,7 +17,7 @@ Theorem C03_all_run : forall w o l ts s,
 Proof. exact run_seq_all. Qed.
 Print Assumptions C03_all_run.
 Theorem C03_each_started_once : forall w o l ts s,
-  rs_run (run_all w o l ts s) = rs_run s + length ts.
+  rs_run (run_all w o l ts s) = rs_run s + fold_right (fun it a => run_count it + a) 0 ts.
 Proof. intros w o l ts s. exact (proj1 (run_all_counts w o l ts s)). Qed.
 Print Assumptions C03_each_started_once.
 
